@@ -2,7 +2,10 @@
 //! properties: C12 C17 C10
 //! note: FundedChannel::write and the disconnection it implies: inbound HTLCs the peer has announced but not yet committed (RemoteAnnounced) are not written, the written HTLC count is reduced by their number, and so is the written next_counterparty_htlc_id (the peer retransmits those adds with the same ids after the reload)
 //! plemma: C12 lemma_channel_fields_are_read_in_the_order_written: the five fixed-position fields after funding_tx_confirmed_in (confirmation height, short channel id, the two dust limits, the in-flight limit) are read in the order FundedChannel::write emits them
+//! plemma: C12 lemma_every_fixed_channel_field_is_read_in_the_order_written: all 28 fixed-position fields of FundedChannel::write that keep their name in read (among them the three monitor_pending flags and the two counterparty commitment points) are read in the order written (R21)
+//! plemma: C12 lemma_every_fixed_monitor_field_is_read_in_the_order_written: the 12 fixed-position fields of write_chanmon_internal that keep their name in the reader (among them the two closing flags lockdown_from_offchain / holder_tx_signed) likewise (R21)
 //! plemma: C12 lemma_channel_limits_are_read_in_the_order_written: the two fields after counterparty_htlc_minimum_msat likewise
+//! trusted: R21 (field sequences): the names of the top-level `ROOT.a.NAME.write(w)?;` statements of a writer and of the `let NAME = Readable::read(r)?;` / `NAME: Readable::read(r)?` sites of a reader, in source order, restricted to a listed set (`only=`: nested records and renamed temporaries are left out), emitted as constant sequences; the lemmas compare them
 //! trusted: R15 (deep slices): ChannelMonitorUpdate write / read: the count expression written in front of the steps and the range of the reader's loop, verbatim; the version prefix, the per-step codecs and the TLV suffix are not sliced (TLV macros: u13c / u12c)
 //! trusted: R15 (deep slices): FundedChannel::write / read: the NAMES of consecutive fixed-position fields of the legacy section are captured on both sides as values of an enum; the lemmas state that the two sequences agree (same-typed neighbours such as the two dust limits can be swapped without a type error)
 //! trusted: R15 (deep slice + capture): ChannelManager::write: the statement that decides whether the pending events go into the legacy list or into TLV 8, and the condition under which TLV 8 is written; R6: `E.iter().any(|p| P)` / `E.iter().all(|p| P)` is an index loop carrying P verbatim that accumulates both answers, the quantifier written in the source selects the result (macro iter_quantifier!)
@@ -505,6 +508,36 @@ pub proof fn lemma_channel_fields_are_read_in_the_order_written()
 pub proof fn lemma_channel_limits_are_read_in_the_order_written()
     ensures written_order_2() =~= read_order_2()
 {}
+}
+// ---- the same for ALL fixed-position fields of the two legacy sections that keep their name on both sides (R21) ----
+pub mod fixed_fields {
+use vstd::prelude::*;
+//@extract lightning/src/ln/channel.rs :: impl Writeable for FundedChannel :: fn write
+//@fields write channel_fields_written only=channel_id,latest_monitor_update_id,destination_script,counterparty_next_commitment_transaction_number,value_to_self_msat,monitor_pending_channel_ready,monitor_pending_revoke_and_ack,monitor_pending_commitment_signed,next_holder_htlc_id,next_counterparty_htlc_id,update_time_counter,feerate_per_kw,funding_tx_confirmed_in,funding_tx_confirmation_height,short_channel_id,counterparty_dust_limit_satoshis,holder_dust_limit_satoshis,counterparty_max_htlc_value_in_flight_msat,counterparty_htlc_minimum_msat,holder_htlc_minimum_msat,counterparty_max_accepted_htlcs,funding_transaction,counterparty_next_commitment_point,counterparty_current_commitment_point,counterparty_node_id,counterparty_shutdown_scriptpubkey,commitment_secrets,channel_update_status
+//@mutant two_of_the_three_monitor_pending_flags_written_in_the_other_order
+    self.context.monitor_pending_revoke_and_ack.write(writer)?; self.context.monitor_pending_commitment_signed.write(writer)?;
+//@with
+    self.context.monitor_pending_commitment_signed.write(writer)?; self.context.monitor_pending_revoke_and_ack.write(writer)?;
+//@end
+//@extract lightning/src/ln/channel.rs :: impl ReadableArgs<(&'a ES, &'b SP, &'c ChannelTypeFeatures)> for FundedChannel<SP> :: fn read
+//@fields read channel_fields_read only=channel_id,latest_monitor_update_id,destination_script,counterparty_next_commitment_transaction_number,value_to_self_msat,monitor_pending_channel_ready,monitor_pending_revoke_and_ack,monitor_pending_commitment_signed,next_holder_htlc_id,next_counterparty_htlc_id,update_time_counter,feerate_per_kw,funding_tx_confirmed_in,funding_tx_confirmation_height,short_channel_id,counterparty_dust_limit_satoshis,holder_dust_limit_satoshis,counterparty_max_htlc_value_in_flight_msat,counterparty_htlc_minimum_msat,holder_htlc_minimum_msat,counterparty_max_accepted_htlcs,funding_transaction,counterparty_next_commitment_point,counterparty_current_commitment_point,counterparty_node_id,counterparty_shutdown_scriptpubkey,commitment_secrets,channel_update_status
+//@mutant the_two_counterparty_commitment_points_read_in_the_other_order
+    let counterparty_next_commitment_point = Readable::read(reader)?; let counterparty_current_commitment_point = Readable::read(reader)?;
+//@with
+    let counterparty_current_commitment_point = Readable::read(reader)?; let counterparty_next_commitment_point = Readable::read(reader)?;
+//@end
+pub proof fn lemma_every_fixed_channel_field_is_read_in_the_order_written() ensures channel_fields_written() =~= channel_fields_read() {}
+//@extract lightning/src/chain/channelmonitor.rs :: fn write_chanmon_internal
+//@fields write monitor_fields_written root=channel_monitor only=latest_update_id,destination_script,counterparty_payment_script,channel_keys_id,holder_revocation_basepoint,current_counterparty_commitment_txid,prev_counterparty_commitment_txid,counterparty_commitment_params,channel_value_satoshis,commitment_secrets,lockdown_from_offchain,holder_tx_signed
+//@mutant the_two_closing_flags_written_in_the_other_order
+    channel_monitor.lockdown_from_offchain.write(writer)?; channel_monitor.holder_tx_signed.write(writer)?;
+//@with
+    channel_monitor.holder_tx_signed.write(writer)?; channel_monitor.lockdown_from_offchain.write(writer)?;
+//@end
+//@extract lightning/src/chain/channelmonitor.rs :: impl ReadableArgs for Option :: fn read
+//@fields read monitor_fields_read only=latest_update_id,destination_script,counterparty_payment_script,channel_keys_id,holder_revocation_basepoint,current_counterparty_commitment_txid,prev_counterparty_commitment_txid,counterparty_commitment_params,channel_value_satoshis,commitment_secrets,lockdown_from_offchain,holder_tx_signed
+//@end
+pub proof fn lemma_every_fixed_monitor_field_is_read_in_the_order_written() ensures monitor_fields_written() =~= monitor_fields_read() {}
 }
 // ---- ChannelManager::write: pending events go either all into the legacy list or all into the TLV that also carries their completion actions ----
 pub mod manager_events {
